@@ -5,7 +5,7 @@ ID = "C25"
 LEVEL = "exploration"
 RULE = ("every labelled digraph with entry 0 and all nodes reachable: n<=4 with self loops (39178 graphs, each built in two node "
         "creation orders), n=5 without self loops (all 745472); n=5 ordered-out-degree<=2 BFS-canonical family with self loops "
-        "(24544); thorough adds n=5 in reversed creation order, n=5 with the complete slice {self-loop mask % 4 == VERIF_SEED % 4} of "
+        "(24544); thorough adds n=5 (loop-free) in reversed creation order, n=5 with the complete slice {self-loop mask % 4 == VERIF_SEED % 4} of "
         "self-loop masks, and the out-degree<=2 family for n=6 (558712); per graph: LengauerTarjan idoms (iterative, recursive and "
         "naive link-eval), ControlFlowGraph idom / dominates / strictly_dominates (interval test) on all ordered pairs, dominance "
         "frontier, can_reach on all pairs, fixed-point dominators + immediate dominators, post_dominates / immediate post-dominator "
@@ -201,16 +201,16 @@ class Rounds:
         return len(self.nodes)
 
 
-def check_dominators(c, ref):
+def check_lt(c, ref, g, nodes, wk, variants=True):
+    """Lengauer-Tarjan on graph g (nodes[i] = node of index i; nodes beyond ref.n are ignored).  Returns True if the
+    production implementation gives the definition's idoms.  The two alternative link-eval implementations in lt.py
+    (naive, recursive) are only reported when the production one is right, so that one defect gives one key."""
     from ppci.graph import lt
-    from ppci.graph.algorithm import fixed_point_dominator as fp
-    p, n, adj = c.p, c.n, c.adj
-    g, nodes = build_cfg(n, adj, c.order, n - 1)
+    p, n = c.p, ref.n
     entry = nodes[0]
+    real = nodes[:n]
 
-    # --- Lengauer-Tarjan, three link-eval implementations
-    lt_ok = True
-    for impl in ("", "naive", "fast"):
+    def one(impl):
         p.add()
         name = "lt.compute" + ("[" + impl + "]" if impl else "")
         try:
@@ -219,69 +219,91 @@ def check_dominators(c, ref):
                 x.ancestor_with_lowest_semi = getattr(x, "ancestor_with_lowest_semi_" + impl)
             res = x.compute(g, entry)
         except Exception as ex:  # noqa
-            c.crash(name, ex, part="dom")
-            lt_ok = lt_ok and bool(impl)
-            continue
-        vec, extra = idom_vector(n, nodes, res)
+            c.crash(name, ex, **wk)
+            return False
+        res = {k: v for k, v in res.items() if k in real}  # (IR path: the artificial exit node is not judged)
+        vec, extra = idom_vector(n, real, res)
         if extra or entry in res or vec != ref.idom:
-            c.bad(name + "/idom", "immediate dominators %r, definition gives %r" % (vec, ref.idom), part="dom")
-            if not impl:
-                lt_ok = False
-    try:
-        p.add()
-        res = lt.calculate_idom(g, entry)
-        vec, extra = idom_vector(n, nodes, res)
-        if (extra or vec != ref.idom) and lt_ok:
-            c.bad("lt.calculate_idom/idom", "immediate dominators %r, definition gives %r" % (vec, ref.idom), part="dom")
-    except Exception as ex:  # noqa
-        if lt_ok:
-            c.crash("lt.calculate_idom", ex, part="dom")
+            c.bad(name + "/idom", "immediate dominators %r, definition gives %r" % (vec, ref.idom), **wk)
+            return False
+        return True
 
-    # --- ControlFlowGraph queries
-    p.add()
-    idom_ok = False
-    try:
-        got = [g.get_immediate_dominator(nd) for nd in nodes]
-        vec = [None if v is None else nodes.index(v) for v in got]
-        idom_ok = vec == ref.idom
-        if not idom_ok and lt_ok:
-            c.bad("cfg.get_immediate_dominator", "returns %r, definition gives %r" % (vec, ref.idom), part="dom")
-    except Exception as ex:  # noqa
-        if lt_ok:
-            c.crash("cfg.get_immediate_dominator", ex, part="dom")
-    if idom_ok:
-        p.add(2)
-        try:
-            for a in range(n):
-                for b in range(n):
-                    exp = bool(ref.dominated[a] >> b & 1)
-                    d = g.dominates(nodes[a], nodes[b])
-                    if bool(d) != exp or nodes[a].dominates(nodes[b]) != d:
-                        c.bad("cfg.dominates/interval", "dominates(n%d, n%d) = %r, definition gives %r (intervals %r, %r)" % (
-                            a, b, d, exp, g.tree_map[nodes[a]].interval, g.tree_map[nodes[b]].interval), part="dom")
-                    sd = g.strictly_dominates(nodes[a], nodes[b])
-                    if bool(sd) != (exp and a != b):
-                        c.bad("cfg.strictly_dominates/interval", "strictly_dominates(n%d, n%d) = %r, definition gives %r (intervals %r, %r)" % (
-                            a, b, sd, exp and a != b, g.tree_map[nodes[a]].interval, g.tree_map[nodes[b]].interval), part="dom")
-        except Exception as ex:  # noqa
-            c.crash("cfg.dominates", ex, part="dom")
-        # --- dominance frontier (on a fresh graph so that it triggers the computation itself)
+    if not one(""):
+        return False
+    if variants:
+        one("naive")
+        one("fast")
         p.add()
         try:
-            g2, nodes2 = build_cfg(n, adj, c.order, n - 1)
-            g2.calculate_dominance_frontier()
-            df = []
-            for nd in nodes2:
-                df.append(sum(1 << nodes2.index(y) for y in g2.df[nd]))
-            if df != ref.df:
-                x = [i for i in range(n) if df[i] != ref.df[i]][0]
-                kind = "missing" if ref.df[x] & ~df[x] else "extra"
-                c.bad("cfg.dominance_frontier/" + kind, "DF(n%d) = %r, definition gives %r (idoms %r)" % (
-                    x, bits(df[x]), bits(ref.df[x]), ref.idom), part="dom")
-            elif any(ref.df):
-                p.outcome(("dom", n, tuple(ref.idom), tuple(ref.df)))
+            res = lt.calculate_idom(g, entry)
+            vec, extra = idom_vector(n, real, {k: v for k, v in res.items() if k in real})
+            if extra or vec != ref.idom:
+                c.bad("lt.calculate_idom/idom", "immediate dominators %r, definition gives %r" % (vec, ref.idom), **wk)
         except Exception as ex:  # noqa
-            c.crash("cfg.calculate_dominance_frontier", ex, part="dom")
+            c.crash("lt.calculate_idom", ex, **wk)
+    return True
+
+
+def check_tree_queries(c, ref, g, nodes, wk):
+    """ControlFlowGraph idom / dominates / strictly_dominates / dominance frontier on g, judged on nodes[:ref.n].
+    Only called when Lengauer-Tarjan is right on this very graph object."""
+    p, n = c.p, ref.n
+    real = nodes[:n]
+    p.add()
+    try:
+        got = [g.get_immediate_dominator(nd) for nd in real]
+        vec = [None if v is None else (real.index(v) if v in real else "?") for v in got]
+        if vec != ref.idom:
+            c.bad("cfg.get_immediate_dominator", "returns %r, definition gives %r" % (vec, ref.idom), **wk)
+            return
+    except Exception as ex:  # noqa
+        c.crash("cfg.get_immediate_dominator", ex, **wk)
+        return
+    p.add(2)
+    try:
+        for a in range(n):
+            for b in range(n):
+                exp = bool(ref.dominated[a] >> b & 1)
+                d = g.dominates(real[a], real[b])
+                if bool(d) != exp or real[a].dominates(real[b]) != d:
+                    c.bad("cfg.dominates/interval", "dominates(n%d, n%d) = %r, definition gives %r (intervals %r, %r)" % (
+                        a, b, d, exp, g.tree_map[real[a]].interval, g.tree_map[real[b]].interval), **wk)
+                    return
+                sd = g.strictly_dominates(real[a], real[b])
+                if bool(sd) != (exp and a != b):
+                    c.bad("cfg.strictly_dominates/interval", "strictly_dominates(n%d, n%d) = %r, definition gives %r (intervals %r, %r)" % (
+                        a, b, sd, exp and a != b, g.tree_map[real[a]].interval, g.tree_map[real[b]].interval), **wk)
+                    return
+    except Exception as ex:  # noqa
+        c.crash("cfg.dominates", ex, **wk)
+        return
+    p.add()
+    try:
+        g.calculate_dominance_frontier()
+        df = []
+        for nd in real:
+            df.append(sum(1 << real.index(y) for y in g.df[nd] if y in real))
+        if df != ref.df:
+            x = [i for i in range(n) if df[i] != ref.df[i]][0]
+            kind = "missing" if ref.df[x] & ~df[x] else "extra"
+            c.bad("cfg.dominance_frontier/" + kind, "DF(n%d) = %r, definition gives %r (idoms %r)" % (
+                x, bits(df[x]), bits(ref.df[x]), ref.idom), **wk)
+        elif any(ref.df):
+            p.outcome(("dom", n, tuple(ref.idom), tuple(ref.df)))
+    except Exception as ex:  # noqa
+        c.crash("cfg.calculate_dominance_frontier", ex, **wk)
+
+
+def check_dominators(c, ref):
+    from ppci.graph.algorithm import fixed_point_dominator as fp
+    p, n, adj = c.p, c.n, c.adj
+    g, nodes = build_cfg(n, adj, c.order, n - 1)
+    entry = nodes[0]
+    wk = {"part": "dom"}
+    if check_lt(c, ref, g, nodes, wk):
+        check_tree_queries(c, ref, g, nodes, wk)
+    else:
+        p.count("graphs_where_lt_is_wrong_tree_queries_skipped")
 
     # --- reachability
     p.add()
@@ -332,6 +354,7 @@ def check_post(c, ref, e, g=None, nodes=None, prefix="cfg", real=None, wk=None):
         p.count("unclassified_pdom_exit_has_successor")
         return
     p.add()
+    p.count("pdom_exits_judged")
     reaches, pdoms, ipdom = ref.post(e)
     suffix = ""
     if g is None:
@@ -365,50 +388,69 @@ def check_post(c, ref, e, g=None, nodes=None, prefix="cfg", real=None, wk=None):
 
 
 def check_ir(c, ref, swap):
-    """The same shape as an IR procedure: ir_function_to_graph adds an artificial exit node behind every block without successors."""
+    """The same shape as an IR procedure: ir_function_to_graph numbers the blocks breadth first and adds an artificial exit
+    node behind every block without successors.  Shared code is reported under the same keys as on the direct path;
+    only what is specific to this path (graph construction, CfgInfo's block maps) has keys of its own."""
+    from ppci.graph.cfg import ir_function_to_graph
     from ppci.graph.domtree import CfgInfo
     p, n, adj = c.p, c.n, c.adj
+    wk = {"part": "ir", "swap": swap}
     built = build_ir(n, adj, c.order, swap)
     if built is None:
         p.count("ir_not_representable_outdegree_gt_2")
         return
     f, blocks = built
+    sinks = [i for i in range(n) if adj[i] == 0]
+    p.add()
+    try:
+        cfg, block_map = ir_function_to_graph(f)
+        nodes = [block_map[b] for b in blocks]
+        ok = set(block_map) == set(blocks) and cfg.entry_node is nodes[0] and len(cfg.nodes) == n + 1
+        for i in range(n):
+            exp = {nodes[j] for j in range(n) if adj[i] >> j & 1} or {cfg.exit_node}
+            ok = ok and set(cfg.successors(nodes[i])) == exp
+        ok = ok and not cfg.successors(cfg.exit_node)
+        if not ok:
+            c.bad("ir_function_to_graph/shape", "the CFG built from the IR procedure does not have the blocks' edges", **wk)
+            return
+    except Exception as ex:  # noqa
+        c.crash("ir_function_to_graph", ex, **wk)
+        return
+    if not check_lt(c, ref, cfg, nodes + [cfg.exit_node], wk, variants=False):
+        return
     p.add()
     try:
         info = CfgInfo(f)
     except Exception as ex:  # noqa
-        c.crash("domtree.CfgInfo", ex, part="ir", swap=swap)
+        c.crash("domtree.CfgInfo", ex, **wk)
         return
     try:
-        got = []
-        for b in blocks:
-            got.append(sum(1 << blocks.index(y) for y in info.df[b]))
-        if set(info.df) != set(blocks):
-            c.bad("domtree.CfgInfo/df-keys", "df has keys %r" % (sorted(map(str, info.df)),), part="ir", swap=swap)
-        elif got != ref.df:
-            x = [i for i in range(n) if got[i] != ref.df[i]][0]
-            c.bad("domtree.CfgInfo/df", "df(b%d) = %r, definition gives %r" % (x, bits(got[x]), bits(ref.df[x])), part="ir", swap=swap)
         nodes = [info.get_node(b) for b in blocks]
-        if [info.get_block(nd) for nd in nodes] != blocks:
-            c.bad("domtree.CfgInfo/get_block", "get_block(get_node(b)) is not b", part="ir", swap=swap)
-        cfg = info.cfg
-        p.add()
-        for a in range(n):
-            for b in range(n):
-                exp = bool(ref.dominated[a] >> b & 1)
-                if bool(cfg.dominates(nodes[a], nodes[b])) != exp or bool(cfg.strictly_dominates(nodes[a], nodes[b])) != (exp and a != b):
-                    c.bad("ir_function_to_graph/dominates", "dominates(b%d, b%d) disagrees with the definition (%r)" % (a, b, exp), part="ir", swap=swap)
+        if [info.get_block(nd) for nd in nodes] != blocks or not all(info.has_block(nd) for nd in nodes) or info.has_block(info.cfg.exit_node):
+            c.bad("domtree.CfgInfo/block-maps", "get_block(get_node(b)) is not b, or has_block is wrong", **wk)
+            return
+        if set(info.df) != set(blocks):
+            c.bad("domtree.CfgInfo/df-keys", "df has keys %r" % (sorted(map(str, info.df)),), **wk)
+            return
+        got = [sum(1 << blocks.index(y) for y in info.df[b]) for b in blocks]
+        direct = [sum(1 << nodes.index(y) for y in info.cfg.df[nd] if y in nodes) for nd in nodes]
+        if got != direct:
+            c.bad("domtree.CfgInfo/df-translation", "df by blocks %r differs from cfg.df by nodes %r" % (got, direct), **wk)
+            return
     except Exception as ex:  # noqa
-        c.crash("domtree.CfgInfo/query", ex, part="ir", swap=swap)
+        c.crash("domtree.CfgInfo/query", ex, **wk)
         return
+    cfg = info.cfg
+    # (info.cfg is another graph object than the one probed above: identity-hashed successor sets may iterate differently)
+    if not check_lt(c, ref, cfg, nodes + [cfg.exit_node], wk, variants=False):
+        return
+    check_tree_queries(c, ref, cfg, nodes + [cfg.exit_node], wk)
     # post dominators towards the artificial exit: oracle on the graph extended by node n
-    sinks = [i for i in range(n) if adj[i] == 0]
+    from vf.gen.graphs import reverse
     ext = tuple((m | (1 << n)) if m == 0 else m for m in adj) + (0,)
     xref = Ref.__new__(Ref)
-    from vf.gen.graphs import reverse
     xref.n, xref.adj, xref.full, xref.pre = n + 1, ext, (1 << (n + 1)) - 1, reverse(n + 1, ext)
-    check_post(c, xref, n, g=cfg, nodes=nodes + [cfg.exit_node], prefix="ir_function_to_graph", real=n + 1 if sinks else n,
-               wk={"part": "ir", "swap": swap})
+    check_post(c, xref, n, g=cfg, nodes=nodes + [cfg.exit_node], real=n + 1 if sinks else n, wk=wk)
 
 
 def check_graph(p, n, adj, variant, parts=("dom", "post", "ir")):
@@ -440,7 +482,7 @@ def full_worker(p, shard, n, nparts, variants, loopmasks):
             for lm in loopmasks:
                 adj2 = tuple(adj[i] | (1 << i) if lm >> i & 1 else adj[i] for i in range(n)) if lm else adj
                 p.count("graphs_n%d" % n)
-                for v in variants:
+                for v in (variants if lm == 0 or n < 5 else variants[:1]):  # n = 5: reversed creation order only for loop-free graphs
                     check_graph(p, n, adj2, v)
 
 
